@@ -7,7 +7,7 @@
 From Coq Require Import List Reals ZArith Lia Lra Floats Bool.
 From Flocq Require Import Core BinarySingleNaN PrimFloat.
 From ET Require Import Model.Scalar Model.Sparse Proofs.SparseBase Proofs.RInst
-  Proofs.ScaleRound Proofs.F64Round Proofs.F64Scale Proofs.RoundNonneg.
+  Proofs.ScaleRound Proofs.F64Round Proofs.F64Scale Proofs.RoundNonneg Proofs.RoundAccuracy.
 Import ListNotations.
 Local Open Scope R_scope.
 
@@ -35,4 +35,22 @@ Proof.
       * apply Rmult_le_compat_r; [apply bpow_ge_0|exact Hlen].
       * rewrite <- bpow_plus. simpl. lra.
     + replace (-50)%Z with (2 + -52)%Z by reflexivity. rewrite bpow_plus. simpl. lra.
+Qed.
+
+(** first-order accuracy of the same sum: the float returned is within 14 n 2^-53 (relative) of the exact sum
+    of the operands' values *)
+Theorem kbn_total_accuracy_F64 : forall l : list PrimFloat.float,
+  Forall finite64 l -> Forall (fun x => 0 <= val64 x) l ->
+  fold_ok (@kbn0 B64) (map val64 l) ->
+  INR (length l) <= bpow radix2 49 ->
+  Rabs (val64 (@kbn_total F64 l) - lsum (map val64 l)) <= 14 * INR (length l) * u64 * lsum (map val64 l).
+Proof.
+  intros l Hf Hn Hok Hlen.
+  pose proof (kbn_fold_sim l (map val64 l) (@kbn0 F64) (@kbn0 B64) (Forall2_sim_vals l Hf) kbn0_sim Hok) as [F V].
+  unfold kbn_total. rewrite V.
+  change (@kbn_sum B64 (fold_left (@kbn_add B64) (map val64 l) (@kbn0 B64))) with (@kbn_total B64 (map val64 l)).
+  rewrite <- (map_length val64 l). apply kbn_total_accuracy_B64.
+  - apply Forall_forall. intros x Hx. apply in_map_iff in Hx. destruct Hx as [y [<- Hy]].
+    rewrite Forall_forall in Hn. exact (Hn _ Hy).
+  - rewrite map_length. exact Hlen.
 Qed.
